@@ -322,13 +322,19 @@ def run_op(h, op):
         if t == 'select':
             cls = h.classes[op[1]]
             res = list(cls.select(build_clause(h, op[1], op[2])))
+            # the clause is patched in place by select(): build a fresh one for count()
+            cnt = cls.select(build_clause(h, op[1], op[2])).count()
             return 'sel' + ''.join(' %d:%d' % (i, m) for i, m in
-                                   sorted((o.id, h.idx.get(type(o).__name__, -1)) for o in res))
+                                   sorted((o.id, h.idx.get(type(o).__name__, -1)) for o in res)) + \
+                ('' if cnt == len(res) else ' count()=%d' % cnt)
         if t == 'selectby':
             cls = h.classes[op[1]]
-            res = list(cls.selectBy(**dict(('v%dk%d' % (a, k), v) for a, k, v in op[2])))
+            kw = dict(('v%dk%d' % (a, k), v) for a, k, v in op[2])
+            res = list(cls.selectBy(**kw))
+            cnt = cls.selectBy(**kw).count()
             return 'sel' + ''.join(' %d:%d' % (i, m) for i, m in
-                                   sorted((o.id, h.idx.get(type(o).__name__, -1)) for o in res))
+                                   sorted((o.id, h.idx.get(type(o).__name__, -1)) for o in res)) + \
+                ('' if cnt == len(res) else ' count()=%d' % cnt)
     except Exception as ex:
         conn.stmts = None
         return exc(ex)
@@ -543,9 +549,12 @@ def oracle_views(shape, raw, i, struct):
 
 # ----------------------------------------------------------------------------- one case
 
-def run_case(shape, ops, want_model=True, view_extra=None):
+def run_case(shape, ops, cold=False, view_extra=None):
     """run a history on the real code.  returns (lines for the model, impl answers aligned with the
-    lines (None for the tree line), oracle failures [(step, kind, text)])"""
+    lines (None for the tree line), oracle failures [(step, kind, text)]).
+    cold: the connection's instance cache is emptied before every operation and before every
+    fetch of the views (every get is a cache miss: SELECT + childName dispatch + _parent fetch);
+    otherwise parent- and child-level instances stay cached across the whole history."""
     h = hier_for(shape)
     h.reset()
     lines = [tree_line(shape)]
@@ -555,6 +564,8 @@ def run_case(shape, ops, want_model=True, view_extra=None):
     inv0 = check_invariant(shape, before)
     allocated = set()
     for step, op in enumerate(ops):
+        if cold:
+            h.conn.cache.clear()
         ans = run_op(h, op)
         after = h.raw()
         lines.append(op_line(op))
@@ -575,6 +586,8 @@ def run_case(shape, ops, want_model=True, view_extra=None):
             if x not in ids:
                 ids.append(x)
         for i in ids:
+            if cold:
+                h.conn.cache.clear()
             s, struct = view_of(h, i)
             lines.append('views %d' % i)
             impl.append(s)
@@ -748,7 +761,7 @@ def corpus_cases():
             if fn.endswith('.json'):
                 data = json.load(open(os.path.join(d, fn)))
                 for case in (data if isinstance(data, list) else [data]):
-                    cases.append((case['shape'], case['ops']))
+                    cases.append((case['shape'], case['ops'], bool(case.get('cold'))))
     return cases
 
 
@@ -758,15 +771,15 @@ def norm_shape(shape):
 
 # ----------------------------------------------------------------------------- minimisation / keys
 
-def fail_kinds(shape, ops):
+def fail_kinds(shape, ops, cold=False):
     try:
-        _, _, fails = run_case(shape, ops)
+        _, _, fails = run_case(shape, ops, cold=cold)
     except Exception as e:  # the harness must survive whatever the real code does
         return {'harness-error:%s' % type(e).__name__}
     return set(k for _, k, _ in fails)
 
 
-def minimise(shape, ops, kind):
+def minimise(shape, ops, kind, cold=False):
     """greedy one-op-at-a-time reduction keeping an oracle failure of the same kind"""
     ops = list(ops)
     changed = True
@@ -777,15 +790,15 @@ def minimise(shape, ops, kind):
         k = len(ops) - 1
         while k >= 0:
             trial = ops[:k] + ops[k + 1:]
-            if kind in fail_kinds(shape, trial):
+            if kind in fail_kinds(shape, trial, cold):
                 ops = trial
                 changed = True
             k -= 1
     return ops
 
 
-def case_key(kind, shape, ops):
-    return 'C15:%s:%s:%s' % (kind, ''.join('%s%d%d' % ('r' if p is None else p, k, h) for p, k, h in shape),
+def case_key(kind, shape, ops, cold=False):
+    return 'C15:%s%s:%s:%s' % (kind, ':cold' if cold else '', ''.join('%s%d%d' % ('r' if p is None else p, k, h) for p, k, h in shape),
                              ';'.join(op_line(op) for op in ops))
 
 
@@ -794,38 +807,39 @@ def case_key(kind, shape, ops):
 def run(ctx):
     sqlo.setup()
     rng = ctx.rng
-    cases = [(norm_shape(s), o) for s, o in corpus_cases()]
+    cases = [(norm_shape(s), o, c) for s, o, c in corpus_cases()]
     ncorpus = len(cases)
     nshapes = ctx.budget(10, 60)
     shapes = [norm_shape(BASE_SHAPE)] + [norm_shape(gen_shape(rng)) for _ in range(nshapes)]
-    ncases = ctx.budget(450, 12000)
+    ncases = ctx.budget(2200, 30000)
     for k in range(ncases):
         shape = shapes[0] if rng.random() < 0.4 else rng.choice(shapes)
         nops = rng.randint(3, 25)
-        cases.append((shape, gen_history(rng, shape, nops)))
+        cases.append((shape, gen_history(rng, shape, nops), rng.random() < 0.3))
 
     all_lines = []
     results = []
-    for idx, (shape, ops) in enumerate(cases):
+    for idx, (shape, ops, cold) in enumerate(cases):
         try:
-            lines, impl, fails = run_case(shape, ops, view_extra=(lambda ids: rng.choice(ids)))
+            lines, impl, fails = run_case(shape, ops, cold=cold, view_extra=(lambda ids: rng.choice(ids)))
         except Exception as e:
             ctx.note('harness error on a case: %r' % (e,))
             raise
-        results.append((shape, ops, lines, impl, fails, len(all_lines)))
+        results.append((shape, ops, cold, lines, impl, fails, len(all_lines)))
         all_lines.extend(lines)
     outs = ctx.model(all_lines)
 
     reported = set()
-    for idx, (shape, ops, lines, impl, fails, off) in enumerate(results):
-        desc = {'shape': [list(s) for s in shape], 'ops': ops}
+    for idx, (shape, ops, cold, lines, impl, fails, off) in enumerate(results):
+        desc = {'shape': [list(s) for s in shape], 'ops': ops, 'cold': cold}
         kinds = [op[0] for op in ops]
         levels = set(op[1] for op in ops if op[0] in ('get', 'read', 'write', 'set', 'destroy'))
         sub = any(op[0] == 'create' and shape[op[1]][0] is not None for op in ops)
-        ctx.case((tuple(shape), json.dumps(ops)), nontrivial=sub and len(levels) >= 2,
+        ctx.case((tuple(shape), json.dumps(ops), cold), nontrivial=sub and len(levels) >= 2,
                  sample={'case': {'shape': desc['shape'], 'ops': [op_line(o) for o in ops][:12]},
                          'impl': [a for a in impl[1:8]]},
-                 kind='corpus' if idx < ncorpus else ('base-hierarchy' if shape == shapes[0] else 'random-tree'))
+                 kind=('corpus' if idx < ncorpus else ('base-hierarchy' if shape == shapes[0] else 'random-tree'))
+                 + ('/cold-cache' if cold else '/warm-cache'))
         for t in kinds:
             ctx.count('op:' + t)
         for a in impl:
@@ -835,8 +849,9 @@ def run(ctx):
             if kind in reported and not ctx.deep:
                 continue
             reported.add(kind)
-            mops = minimise(shape, ops[:step + 1] if 0 <= step < len(ops) else ops, kind)
-            ctx.oracle_fail(case_key(kind, shape, mops), text, {'shape': desc['shape'], 'ops': mops, 'kind': kind})
+            mops = minimise(shape, ops[:step + 1] if 0 <= step < len(ops) else ops, kind, cold)
+            ctx.oracle_fail(case_key(kind, shape, mops, cold), text,
+                            {'shape': desc['shape'], 'ops': mops, 'kind': kind, 'cold': cold})
         if outs is not None:
             for j, line in enumerate(lines):
                 if impl[j] is None:
@@ -845,15 +860,16 @@ def run(ctx):
                 stream = ('tables after every step: model = raw SELECT' if w == 'dump' else
                           'views through every entry level: model = real instances' if w == 'views' else
                           'operation answers (ids, statement order, classes, values): model = real code')
-                if not ctx.compare(stream, {'shape': desc['shape'], 'ops': ops, 'at': line}, outs[off + j], impl[j]):
+                if not ctx.compare(stream, {'shape': desc['shape'], 'ops': ops, 'cold': cold, 'at': line},
+                                   outs[off + j], impl[j]):
                     break
 
 
 def replay(case):
     sqlo.setup()
     shape = norm_shape(case['shape'])
-    lines, impl, fails = run_case(shape, case['ops'])
-    text = ['history:'] + ['  ' + op_line(o) for o in case['ops']] + ['answers:'] + \
+    lines, impl, fails = run_case(shape, case['ops'], cold=bool(case.get('cold')))
+    text = ['history%s:' % (' (cache emptied before every step)' if case.get('cold') else '')] + ['  ' + op_line(o) for o in case['ops']] + ['answers:'] + \
            ['  %s -> %s' % (l, a) for l, a in zip(lines, impl) if a is not None and not l.startswith('views')]
     if fails:
         text += ['oracle failures:'] + ['  step %d [%s] %s' % f for f in fails]
